@@ -212,10 +212,18 @@ impl RaftWal<FileWriter> {
         let file = OpenOptions::new().create(true).append(true).open(&path)?;
 
         // Get current file size
-        let current_size = file.metadata().map(|m| m.len()).unwrap_or(0);
+        let mut current_size = file.metadata().map(|m| m.len()).unwrap_or(0);
 
-        // Count existing entries
-        let entry_count = Self::count_entries(&path)?;
+        // Count existing entries and find where the last whole record ends
+        let (entry_count, whole_len) = Self::count_entries(&path)?;
+
+        // A crash can leave a partially written record at the end of the log. Replay stops
+        // there, so anything appended behind it would be unreadable: drop the torn tail.
+        if whole_len < current_size {
+            file.set_len(whole_len)?;
+            file.sync_all()?;
+            current_size = whole_len;
+        }
 
         Ok(Self {
             writer: FileWriter::new(file),
@@ -226,15 +234,17 @@ impl RaftWal<FileWriter> {
         })
     }
 
-    /// Count entries in an existing WAL file.
-    fn count_entries(path: &Path) -> io::Result<u64> {
+    /// Count entries in an existing WAL file; also returns the byte length of the
+    /// longest prefix made of whole records.
+    fn count_entries(path: &Path) -> io::Result<(u64, u64)> {
         if !path.exists() {
-            return Ok(0);
+            return Ok((0, 0));
         }
 
         let file = File::open(path)?;
         let mut reader = BufReader::new(file);
         let mut count = 0;
+        let mut whole_len: u64 = 0;
         let mut detected_format: Option<bool> = None; // None = unknown, Some(true) = V2, Some(false) = V1
 
         loop {
@@ -263,7 +273,10 @@ impl RaftWal<FileWriter> {
                 // V2: skip the remaining payload bytes
                 let mut data = vec![0u8; len];
                 match reader.read_exact(&mut data) {
-                    Ok(()) => count += 1,
+                    Ok(()) => {
+                        count += 1;
+                        whole_len += 8 + len as u64;
+                    },
                     Err(e) if e.kind() == io::ErrorKind::UnexpectedEof => break,
                     Err(e) => return Err(e),
                 }
@@ -272,17 +285,21 @@ impl RaftWal<FileWriter> {
                 if len > 4 {
                     let mut remaining = vec![0u8; len - 4];
                     match reader.read_exact(&mut remaining) {
-                        Ok(()) => count += 1,
+                        Ok(()) => {
+                            count += 1;
+                            whole_len += 4 + len as u64;
+                        },
                         Err(e) if e.kind() == io::ErrorKind::UnexpectedEof => break,
                         Err(e) => return Err(e),
                     }
                 } else {
                     count += 1;
+                    whole_len += 4 + len as u64;
                 }
             }
         }
 
-        Ok(count)
+        Ok((count, whole_len))
     }
 
     /// Check if bytes look like a bitcode discriminant start (legacy V1 format detection).
@@ -442,7 +459,7 @@ impl<W: WalWriter> RaftWal<W> {
             0
         };
         let entry_count = if path.exists() {
-            RaftWal::<FileWriter>::count_entries(&path)?
+            RaftWal::<FileWriter>::count_entries(&path)?.0
         } else {
             0
         };
